@@ -11,14 +11,16 @@
 (***************************************************************************)
 EXTENDS Naturals, Sequences, FiniteSets, TLC, Json
 
-Sites == {"ske12", "cv12", "scv13", "ccv13", "phacv", "phafin", "fin", "srp", "binder", "checker"}
-SigSites == {"ske12", "cv12", "scv13", "ccv13", "phacv"}
+\* dcsig: the end-entity key's signature over the delegated credential (RFC 9345); dccv: CertificateVerify made with the
+\* delegated key
+Sites == {"ske12", "cv12", "scv13", "ccv13", "phacv", "phafin", "fin", "srp", "binder", "checker", "dcsig", "dccv"}
+SigSites == {"ske12", "cv12", "scv13", "ccv13", "phacv", "dcsig", "dccv"}
 \* "absent": an identity is demanded (Checker) but the peer presents none (anonymous suite / empty Certificate)
 \* "stale" : the peer presents a ticket naming an identity, makes no valid proof for it (garbage binder) and the
 \*           ticket is unusable with the negotiated suite: the handshake may fall back to a full one, but the
 \*           identity named by the ticket must not be attributed
 Classes == {"none", "bitflip", "empty", "trunc", "extend", "otherkey", "otherdata", "declother", "wrongsecret", "absent", "stale"}
-KeyTypes == {"rsa", "ecdsa", "dsa", "ed25519", "rsapss", "-"}
+KeyTypes == {"rsa", "ecdsa", "dsa", "ed25519", "rsapss", "p384", "p521", "ed448", "bp256", "-"}
 
 \* which (site, class, key type, version) combinations exist
 Meaningful(c) ==
@@ -27,12 +29,14 @@ Meaningful(c) ==
   /\ (c.site \notin SigSites => c.kt = "-" /\ c.cls \in {"none", "wrongsecret", "absent", "stale"})
   /\ (c.cls = "absent" => c.site = "checker" /\ (c.role = "c" => c.ver = 3))
   /\ (c.cls = "stale" => c.site = "binder")
-  /\ (c.site = "ske12" => c.ver \in 0..3 /\ c.kt \in {"rsa", "ecdsa", "dsa"} /\ (c.kt = "ecdsa" => c.ver >= 1))
+  /\ (c.site = "ske12" => c.ver \in 0..3 /\ c.kt \in {"rsa", "ecdsa", "dsa", "p384", "p521", "ed448"}
+                          /\ (c.kt \in {"ecdsa", "p384", "p521"} => c.ver >= 1) /\ (c.kt = "ed448" => c.ver = 3))
   /\ (c.site = "cv12" => c.ver \in 0..3 /\ c.kt \in {"rsa", "ecdsa", "dsa", "ed25519"}
                          /\ (c.kt = "ecdsa" => c.ver >= 1) /\ (c.kt = "ed25519" => c.ver = 3))
-  /\ (c.site = "scv13" => c.ver = 4 /\ c.kt \in {"rsa", "ecdsa", "ed25519", "rsapss"})
+  /\ (c.site = "scv13" => c.ver = 4 /\ c.kt \in {"rsa", "ecdsa", "ed25519", "rsapss", "p384", "p521", "ed448", "bp256"})
   /\ (c.site = "ccv13" => c.ver = 4 /\ c.kt \in {"rsa", "ecdsa", "ed25519"})
   /\ (c.site \in {"phacv", "phafin"} => c.ver = 4 /\ c.kt \in {"rsa", "ecdsa", "-"})
+  /\ (c.site \in {"dcsig", "dccv"} => c.ver = 4 /\ c.kt \in {"rsapss", "ecdsa", "ed25519"})
   /\ (c.site = "fin" => c.ver \in 0..4)
   /\ (c.site = "srp" => c.ver \in 1..3)
   /\ (c.site = "binder" => c.ver = 4)
@@ -40,12 +44,12 @@ Meaningful(c) ==
   \* the SSLv3/TLS<=1.1 signature formats carry no algorithm identifier to mis-declare
   /\ (c.cls = "declother" => c.ver >= 3)
   \* EdDSA and DSA-in-TLS1.2 have one scheme per key: nothing else to declare for EdDSA
-  /\ (c.cls = "declother" => c.kt # "ed25519")
+  /\ (c.cls = "declother" => c.kt \notin {"ed25519", "ed448"})
 
 Cases == {c \in [site : Sites, cls : Classes, kt : KeyTypes, ver : 0..4, role : {"c", "s"}] :
             /\ Meaningful(c)
             \* which endpoint verifies at this site
-            /\ (c.site \in {"ske12", "scv13"} => c.role = "c")
+            /\ (c.site \in {"ske12", "scv13", "dcsig", "dccv"} => c.role = "c")
             /\ (c.site \in {"cv12", "ccv13", "phacv", "phafin", "srp", "binder"} => c.role = "s")}
 
 ProofValid(c) == c.cls = "none"
